@@ -99,6 +99,32 @@ def response_ref_equals_inline(content: int) -> bool:
     return same and sorted(sa.classes_by_name) == sorted(sb.classes_by_name)
 
 
+BAD_RESP_REFS = (
+    "https://remote.example/api.yaml#/components/responses/TheResp",
+    "other.yaml#/components/responses/TheResp",
+    "#/components/schemas/TheResp",
+    "#/components/requestBodies/TheResp",
+    "#/components/responses/Missing",
+    "TheResp",
+    "",
+)
+
+
+def malformed_response_reference_is_diagnosed(bad: int) -> bool:
+    """
+    A response reference that is remote, relative to another file, points into another section or names nothing is a
+    diagnostic for that response and leaves the schemas untouched; it is never bound to the local response that merely
+    has the same last path segment.
+    pre: 0 <= bad < 7
+    post: _
+    """
+    table = {"TheResp": oai.Response.model_validate({"description": "d", "content": {"application/json": {"schema": {"type": "integer"}}}})}
+    ref = oai.Reference.model_construct(ref=_pick(BAD_RESP_REFS, bad))
+    schemas = Schemas()
+    res, s2 = response_from_data(status_code=HTTPStatus(200), data=ref, schemas=schemas, responses=table, parent_name="op", config=CFG)
+    return isinstance(res, ParseError) and s2 is schemas
+
+
 SCHEMA_KINDS = (
     {"type": "object", "properties": {"a": {"type": "integer"}}, "required": ["a"]},
     {"type": "string", "enum": ["x", "y"]},
